@@ -45,6 +45,24 @@ type RaceCase struct {
 	Ops       []RaceOp `json:"ops"`
 	Rounds    int      `json:"rounds"`
 	Reuse     bool     `json:"reuse"` // serve the same Service object again in every round (else a fresh one)
+	// SlowReg: a RegisterInterface call is already in flight when serving starts - its description getter takes 2 ms.
+	// (It started before serving, so it is entitled to complete; it must then have completed before the registry is read.)
+	SlowReg bool `json:"slow_reg,omitempty"`
+}
+
+// slowRaceIface's description getter blocks until released.
+type slowRaceIface struct {
+	name    string
+	release chan struct{}
+}
+
+func (s *slowRaceIface) VarlinkGetName() string { return s.name }
+func (s *slowRaceIface) VarlinkGetDescription() string {
+	<-s.release
+	return "interface " + s.name + "\nmethod X() -> ()\n"
+}
+func (s *slowRaceIface) VarlinkDispatch(ctx context.Context, c varlink.Call, m string) error {
+	return c.ReplyMethodNotImplemented(ctx, m)
 }
 
 var raceKinds = []string{"shutdown", "getlistener", "register", "client", "client-hold", "call-cancel", "call-deadline", "more", "upgrade-io", "ctx-cancel"}
@@ -80,6 +98,8 @@ func runSchedule(c RaceCase) raceStats {
 	newSvc := func() *varlink.Service {
 		s, _ := varlink.NewService("v", "p", "1", "u")
 		s.RegisterInterface(&ScriptIface{Name: "x.y", Desc: "interface x.y\nmethod X() -> ()\n", Log: &InvLog{}, AllowIO: true})
+		// (registered out of lexical order: anything that reorders or rebuilds shared registry data on a read path has work to do)
+		s.RegisterInterface(&ScriptIface{Name: "a.first", Desc: "interface a.first\nmethod X() -> ()\n", Log: &InvLog{}})
 		return s
 	}
 	for round := 0; round < c.Rounds; round++ {
@@ -93,6 +113,15 @@ func runSchedule(c RaceCase) raceStats {
 		ctx, cancel := context.WithCancel(context.Background())
 		done := make(chan error, 1)
 		timeout := time.Duration(c.TimeoutMS) * time.Millisecond
+		regDone := make(chan struct{})
+		if c.SlowReg {
+			si := &slowRaceIface{name: fmt.Sprintf("s.low%d", atomic.AddInt64(&raceRegCounter, 1)), release: make(chan struct{})}
+			go func() { svc.RegisterInterface(si); close(regDone) }()
+			time.AfterFunc(2*time.Millisecond, func() { close(si.release) })
+			time.Sleep(100 * time.Microsecond) // it is inside RegisterInterface now
+		} else {
+			close(regDone)
+		}
 		if c.Serve == "dolisten" {
 			if err := svc.Bind(ctx, addr); err != nil {
 				cancel()
@@ -143,6 +172,7 @@ func runSchedule(c RaceCase) raceStats {
 			}(op)
 		}
 		wg.Wait()
+		<-regDone
 		svc.Shutdown()
 		select {
 		case <-done:
@@ -201,6 +231,30 @@ func runRaceOp(op RaceOp, svc *varlink.Service, addr string, cancelServe context
 			time.Sleep(10 * time.Microsecond)
 		}
 	case "client":
+		// first a burst: several connections introspect at the same instant (the very first introspection calls on a fresh service)
+		var burst []*varlink.Connection
+		for k := 0; k < 3; k++ {
+			if c := dial(); c != nil {
+				burst = append(burst, c)
+			}
+		}
+		var bwg sync.WaitGroup
+		gate := make(chan struct{})
+		for _, c := range burst {
+			bwg.Add(1)
+			go func(c *varlink.Connection) {
+				defer bwg.Done()
+				defer c.Close()
+				<-gate
+				ctx, cancel := short()
+				var names []string
+				c.GetInfo(ctx, nil, nil, nil, nil, &names)
+				c.GetInterfaceDescription(ctx, "a.first")
+				cancel()
+			}(c)
+		}
+		close(gate)
+		bwg.Wait()
 		for i := 0; i < n; i++ {
 			if c := dial(); c != nil {
 				ctx, cancel := short()
@@ -552,7 +606,7 @@ func TestC16Pairs(t *testing.T) {
 			if raceKinds[i] != "client-hold" && raceKinds[j] != "client-hold" {
 				ops = append(ops, RaceOp{Kind: "client-hold", SustainM: 25})
 			}
-			cases = append(cases, RaceCase{Serve: serve, Transport: tr, Ops: ops, Rounds: rounds, Reuse: k%2 == 0})
+			cases = append(cases, RaceCase{Serve: serve, Transport: tr, Ops: ops, Rounds: rounds, Reuse: k%2 == 0, SlowReg: k%3 == 1})
 			if Thorough() {
 				for l := j; l < len(raceKinds); l++ {
 					cases = append(cases, RaceCase{Serve: []string{"listen", "dolisten"}[l%2], Transport: tr, Ops: []RaceOp{defaultOp(raceKinds[i], 0), defaultOp(raceKinds[j], 1), defaultOp(raceKinds[l], 2)}, Rounds: rounds, Reuse: l%2 == 0, TimeoutMS: []int{0, 30}[l%2]})
@@ -572,7 +626,7 @@ func TestC16Pairs(t *testing.T) {
 
 func genC16(t *rapid.T) RaceCase {
 	c := RaceCase{Serve: rapid.SampledFrom([]string{"listen", "dolisten"}).Draw(t, "serve"), Transport: rapid.SampledFrom([]string{"unix", "unix", "tcp"}).Draw(t, "tr"),
-		TimeoutMS: rapid.SampledFrom([]int{0, 0, 20, 200}).Draw(t, "timeout"), Rounds: rapid.IntRange(3, 12).Draw(t, "rounds"), Reuse: rapid.Bool().Draw(t, "reuse")}
+		TimeoutMS: rapid.SampledFrom([]int{0, 0, 20, 200}).Draw(t, "timeout"), Rounds: rapid.IntRange(3, 12).Draw(t, "rounds"), Reuse: rapid.Bool().Draw(t, "reuse"), SlowReg: rapid.IntRange(0, 2).Draw(t, "slowreg") == 0}
 	n := rapid.IntRange(2, 5).Draw(t, "nops")
 	for i := 0; i < n; i++ {
 		c.Ops = append(c.Ops, RaceOp{Kind: rapid.SampledFrom(raceKinds).Draw(t, "kind"), OffsetUS: rapid.IntRange(0, 20).Draw(t, "off") * 100,
